@@ -321,8 +321,28 @@ def _run_case(i, rng, rec, tier, state):
             rec.cls("Polygon:duplicate:negative-zero")
             expect_invalid(rec, "Polygon:duplicate", lambda: cs.Polygon(container(rng, W), normal=narg), dict(info, vertices=W, negative_zero=True))
             rec.nontriv("Polygon:duplicate", W)
+        elif sib == 1 and rng.random() < 0.45:
+            # grid outlines standing in a coordinate plane or a vertical diagonal plane (a rectangle, an L, a staircase: many
+            # vertices share one, two coordinates), with one vertex listed twice - most often the closed ring a drawing program
+            # exports (first vertex repeated at the end), else anywhere in the list
+            shapes = ([(0, 0), (2, 0), (2, 3), (0, 3)], [(0, 0), (3, 0), (3, 1), (1, 1), (1, 3), (0, 3)],
+                      [(0, 0), (3, 0), (3, 1), (2, 1), (2, 2), (1, 2), (1, 3), (0, 3)], [(0, 0), (4, 0), (4, 2), (0, 2)])
+            xy = np.array(shapes[int(rng.integers(len(shapes)))], float) * float(rng.choice([0.5, 1.0, 2.0]))
+            xy = np.roll(xy[::-1] if rng.random() < 0.5 else xy, int(rng.integers(len(xy))), axis=0)
+            plane = str(rng.choice(["xz", "yz", "xy", "x=y", "x=-y"]))
+            u_, v_ = xy[:, 0], xy[:, 1]
+            zero = np.zeros(len(xy))
+            W = {"xz": np.column_stack((u_, zero, v_)), "yz": np.column_stack((zero, u_, v_)), "xy": np.column_stack((u_, v_, zero)),
+                 "x=y": np.column_stack((u_, u_, v_)), "x=-y": np.column_stack((u_, -u_, v_))}[plane]
+            W = W + rng.integers(-3, 4, size=3)
+            j = 0 if rng.random() < 0.6 else int(rng.integers(len(W)))
+            pos = len(W) if rng.random() < 0.6 else int(rng.integers(len(W) + 1))
+            W = np.insert(W, pos, W[j], axis=0)
+            rec.cls("Polygon:duplicate:grid-outline-in-" + ("a-vertical-plane" if plane != "xy" else "the-xy-plane"))
+            expect_invalid(rec, "Polygon:duplicate", lambda: cs.Polygon(container(rng, W)), dict(info, vertices=W, plane=plane, normal_arg=None))
+            rec.nontriv("Polygon:duplicate", W)
         elif sib == 1:
-            W = np.vstack((V, V[int(rng.integers(n))]))
+            W = np.insert(V, int(rng.integers(n + 1)) if rng.random() < 0.5 else n, V[int(rng.integers(n))], axis=0)
             expect_invalid(rec, "Polygon:duplicate", lambda: cs.Polygon(container(rng, W), normal=narg), dict(info, vertices=W))
             rec.nontriv("Polygon:duplicate", W)
         elif sib == 2:
